@@ -32,6 +32,15 @@ executor* that runs each function body on a store of Lean terms:
   give changed code a definition that differs from the model);
 * `x.unwrap()` is only accepted where `x.is_some()` has been tested on the path: the test becomes
   `match x with | some w => .. | none => ..` and the `unwrap` is `w`.
+* `match` / `if let` are compiled by a decision tree over (nested) `Some(..)`/`None`/tuple patterns with guards,
+  in value position (branches merged) as well as with `return`/`continue` inside an arm (continuations).
+* `&mut` references: `let r = &mut place` makes `r` an alias of the place; a pattern variable bound by
+  `ref mut` or through `as_mut()` / `&mut` writes through to the matched place (`place := some <new value>`).
+* a struct field that the Rust declares but the model has no counterpart for is *new state*: its value is
+  opaque, execution goes on (both branches of tests on it), and a function that touches it is reported
+  `DIFFERS (new state): <field>` (alias kept); a function that does not touch it is translated as usual.
+* elaboration guard: when the generated text changed it is elaborated once with `lake env lean`; a definition
+  Lean rejects falls back to its alias with status `UNTRANSLATED … does not elaborate`.
 
 TRUSTED MAPPING (Rust -> Lean); everything else is structural:
   usize/u64/u8 -> Nat (no overflow, psl as Nat: header of Model/RobinHood.lean);  `e as usize/u64/u8` -> e
@@ -39,7 +48,9 @@ TRUSTED MAPPING (Rust -> Lean); everything else is structural:
   `.clone() .iter() .as_ref() & &mut * ref` -> identity
   `v[i]` (read) -> `sget v i` for slots / `v.getD i none` for options;  `v[i] = x` -> `v.set i x`
   `.is_some()` -> `.isSome`, `.is_none()` -> `.isNone`, `.next_power_of_two()` -> `nextPow2`
-  `Option::filter/map/replace`, `mem::replace`, `mem::swap` -> their definitions
+  `Option::filter/map/replace/take/insert/unwrap_or/map_or/is_some_and/and_then/or`, `mem::replace`, `mem::swap` -> their definitions
+  `v.get(i)` -> `v[i]?`, `v.len()` -> `v.length`, `v.is_empty()`, `v.push(x)` -> `v ++ [x]`, `v.first()/last()`
+  `^ & |` on integers -> `^^^ &&& |||`; `a.min(b) a.max(b) a.saturating_sub(b) a.pow(b) a.abs_diff(b)`; tuples -> Lean tuples
   f64: `x as f64` is the rational x/1, `*` `/` are exact, the constants `GROW_RATIO`, `LOAD_FACTOR`
         are the rational parameter `num/den`;  `a > b` -> `a.n * b.d > a.d * b.n`
   bump arena (`alloc: Bump`) -> the list `keys`; `self.alloc.alloc(e)` -> index `keys.length`, `keys ++ [e]`;
@@ -68,6 +79,11 @@ OUT = os.path.join(ROOT, "lean", "RsddModel", "Model", "GenTables.lean")
 
 
 class Untranslatable(Exception):
+    pass
+
+
+class DiffersNewState(Exception):
+    """the function was read, but it uses state (a struct field) the model has no counterpart for"""
     pass
 
 
@@ -180,8 +196,9 @@ class Parser:
 
     # ---- items
     def parse_file(self):
-        """returns (fns, consts): fns = {(impl type | None, name): fn dict}"""
+        """returns (fns, consts): fns = {(impl type | None, name): fn dict}; self.structs = declared fields"""
         fns, consts = {}, {}
+        self.structs = {}
         while self.peek() is not None:
             self.item(None, fns, consts)
         return fns, consts
@@ -224,6 +241,34 @@ class Parser:
             while not self.at("}"):
                 self.item(name, fns, consts)
             self.eat("}")
+        elif tok == "struct" and self.kind(1) == "id":
+            self.eat()
+            sname = self.ident()
+            self.skip_generics()
+            while not self.at("{", ";", "("):
+                self.eat()
+            if self.at("{"):
+                self.eat("{")
+                flds = []
+                while not self.at("}"):
+                    self.attributes()
+                    while self.at("pub"):
+                        self.eat()
+                        if self.at("("):
+                            self.skip_balanced("(", ")")
+                    flds.append(self.ident())
+                    self.eat(":")
+                    self.type_until((",", "}"))
+                    if self.at(","):
+                        self.eat()
+                self.eat("}")
+                self.structs[sname] = flds
+            elif self.at("("):
+                self.skip_balanced("(", ")")
+                if self.at(";"):
+                    self.eat()
+            else:
+                self.eat(";")
         elif tok == "const":
             self.eat()
             name = self.ident()
@@ -326,6 +371,17 @@ class Parser:
                 init = self.expr()
             self.eat(";")
             return ("let", pat, ty, init)
+        if self.peek() in ("if", "match", "loop", "while", "for", "{"):
+            # a block-like expression statement ends at its closing brace (Rust statement rule)
+            e = self.primary(False)
+            if self.at(";"):
+                self.eat()
+                return ("expr", e, True)
+            if self.at("}"):
+                return ("expr", e, False)
+            if not self.at(".", "?", "as"):
+                return ("expr", e, True)
+            raise Untranslatable("parse: method call on a block expression in statement position")
         e = self.expr()
         if self.at(";"):
             self.eat()
@@ -345,9 +401,10 @@ class Parser:
             self.eat()
             return self.pattern()
         if self.at("ref", "mut"):
+            mode = ""
             while self.at("ref", "mut"):
-                self.eat()
-            return ("pident", self.ident())
+                mode += self.eat()
+            return ("pident", self.ident(), mode)
         if self.at("("):
             self.eat()
             ps = []
@@ -622,7 +679,9 @@ class Parser:
 
 
 def parse_source(path):
-    return Parser(tokenize(open(path).read())).parse_file()
+    p = Parser(tokenize(open(path).read()))
+    fns, consts = p.parse_file()
+    return fns, consts, p.structs
 
 
 
@@ -675,6 +734,12 @@ class SVal:
         self.sname, self.base, self.over = sname, base, dict(over or {})
 
 
+class Alias:
+    """a `&mut` reference held in a variable: reads and writes go to the place (cell, path)"""
+    def __init__(self, cid, path):
+        self.cid, self.path = cid, list(path)
+
+
 class FVal:
     """f64 as an exact rational num/den (Lean Nat terms)"""
     def __init__(self, num, den):
@@ -708,8 +773,10 @@ class MatchComb:
     def __init__(self, scrut, w):
         self.scrut, self.w = scrut, w
 
-    def mk(self, a, b):
+    def mk(self, a, b, multiline=False):
         w = self.w if re.search(r"(?<![A-Za-z0-9_'.])%s(?![A-Za-z0-9_'])" % re.escape(self.w), a) else "_"
+        if multiline:
+            return "(match %s with\n| some %s =>\n%s\n| none =>\n%s)" % (self.scrut, w, indent(a), indent(b))
         return "(match %s with | some %s => %s | none => %s)" % (self.scrut, w, a, b)
 
 
@@ -719,11 +786,12 @@ def uses(name, text):
 
 class State:
     def __init__(self):
-        self.cells, self.names, self.know, self.order = {}, {}, {}, []
+        self.cells, self.names, self.know, self.order, self.hooks = {}, {}, {}, [], {}
 
     def copy(self):
         s = State()
         s.cells, s.names, s.know, s.order = dict(self.cells), dict(self.names), dict(self.know), list(self.order)
+        s.hooks = dict(self.hooks)
         return s
 
 
@@ -767,9 +835,27 @@ CTX_RH = {
 
 # ================================================================ the symbolic executor
 class Exec:
-    def __init__(self, ctx, fns, consts, targets):
+    def __init__(self, ctx, fns, consts, targets, structs=None):
         self.ctx, self.fns, self.consts, self.targets = ctx, fns, consts, targets
+        self.structs_decl = structs or {}
         self.nextid = 0
+        self.newstate = []
+
+    def opaque(self, what="state"):
+        return Val("«%s»" % what, "Opaque")
+
+    @staticmethod
+    def is_opaque(v):
+        return isinstance(v, Val) and v.ty is not None and "Opaque" in v.ty
+
+    def new_field(self, sname, f):
+        """f is declared in the Rust struct but has no counterpart in the model"""
+        if f in self.structs_decl.get(sname, []):
+            tag = "%s.%s" % (sname, f)
+            if tag not in self.newstate:
+                self.newstate.append(tag)
+            return True
+        return False
 
     # ---------------- names / types
     def fresh(self, base):
@@ -874,6 +960,14 @@ class Exec:
     def field_get(self, v, f):
         if v is UNMOD:
             return UNMOD
+        if self.is_opaque(v):
+            return self.opaque()
+        if isinstance(v, Val) and v.term is not None and " × " in v.ty and f.isdigit():
+            parts = v.ty.split(" × ")
+            i = int(f)
+            if i < len(parts) and not any("(" in q and " × " in q for q in parts):
+                t = parts[i][1:-1] if balanced_wrap(parts[i], "(", ")") else parts[i]
+                return self.wrapty(par(v.term) + ".2" * i + (".1" if i < len(parts) - 1 else ""), t)
         if not isinstance(v, SVal):
             raise Untranslatable("field .%s of a non-struct value" % f)
         for rf, lf, ty in self.fields(v.sname):
@@ -885,11 +979,15 @@ class Exec:
                 if v.base is None:
                     raise Untranslatable("field %s not initialised" % f)
                 return self.wrapty(par(v.base) + "." + lf, ty)
+        if self.new_field(v.sname, f):
+            return self.opaque(f)
         raise Untranslatable("unknown field %s of %s" % (f, v.sname))
 
     def field_set(self, v, f, new):
         if v is UNMOD:
             return UNMOD
+        if self.is_opaque(v):
+            return v
         if not isinstance(v, SVal):
             raise Untranslatable("assignment to field .%s of a non-struct value" % f)
         for rf, lf, ty in self.fields(v.sname):
@@ -901,6 +999,8 @@ class Exec:
                 o = dict(v.over)
                 o[lf] = new
                 return SVal(v.sname, v.base, o)
+        if self.new_field(v.sname, f):
+            return v
         raise Untranslatable("unknown field %s of %s" % (f, v.sname))
 
     def elem_ty(self, v):
@@ -911,6 +1011,8 @@ class Exec:
         return t[1:-1] if balanced_wrap(t, "(", ")") else t
 
     def index_get(self, v, i):
+        if self.is_opaque(v) or self.is_opaque(i):
+            return self.opaque()
         et = self.elem_ty(v)
         l, i = self.pack(v), self.pack(i)
         if et == "_root_.RH.Slot":
@@ -920,17 +1022,36 @@ class Exec:
         raise Untranslatable("indexing a list of %s" % et)
 
     def index_set(self, v, i, new):
+        if self.is_opaque(v):
+            return v
         return Val("%s.set %s %s" % (par(self.pack(v)), par(self.pack(i)), par(self.pack(new))), self.ty_of(v))
 
+    def some_get(self, v, step):
+        _, T, w, inner = step
+        if isinstance(v, Val) and v.term is not None:
+            if v.term == T:
+                return self.wrapty(w, inner)
+            if v.term.startswith("some "):
+                t = v.term[5:]
+                return self.wrapty(t[1:-1] if balanced_wrap(t, "(", ")") else t, inner)
+        raise Untranslatable("a reference into an Option is used after the Option was reset")
+
     def get_path(self, v, path):
-        for kind, x in path:
-            v = self.field_get(v, x) if kind == "f" else self.index_get(v, x)
+        for step in path:
+            kind, x = step[0], step[1]
+            if kind == "s":
+                v = self.some_get(v, step)
+            else:
+                v = self.field_get(v, x) if kind == "f" else self.index_get(v, x)
         return v
 
     def set_path(self, v, path, new):
         if not path:
             return new
-        kind, x = path[0]
+        kind, x = path[0][0], path[0][1]
+        if kind == "s":
+            inner = self.set_path(self.some_get(v, path[0]), path[1:], new)
+            return Val("some " + par(self.pack(inner)), self.ty_of(v))
         if kind == "f":
             sub = self.field_get(v, x)
             if sub is UNMOD:
@@ -968,6 +1089,8 @@ class Exec:
     # ---------------- merging of two branch results
     def merge(self, comb, a, b):
         if a is b:
+            return a
+        if isinstance(a, Alias) or isinstance(b, Alias):
             return a
         if a is UNMOD or b is UNMOD:
             return UNMOD
@@ -1046,6 +1169,8 @@ class Exec:
             return v
         if isinstance(v, Val) and v.ty == "Bool" and v.term is not None:
             return Cond(v.term, "bool")
+        if self.is_opaque(v):
+            return Cond("«state»", "bool")
         raise Untranslatable("condition is not boolean")
 
     def arena_get(self, v, st):
@@ -1123,6 +1248,9 @@ class Exec:
             known = {rf: (lf, ty) for rf, lf, ty in self.fields(sname)}
             for f, fe in e[2]:
                 if f not in known:
+                    if self.new_field(sname, f):
+                        self.ev(fe, st)
+                        continue
                     raise Untranslatable("unknown field %s of %s" % (f, sname))
                 v = self.ev(fe, st)
                 if known[f][0] is not None:
@@ -1155,6 +1283,12 @@ class Exec:
             return self.run_for(e, st)
         if k == "while":
             return self.run_while(e, st)
+        if k == "tuple":
+            vs = [self.ev(x, st) for x in e[1]]
+            if any(self.is_opaque(v) for v in vs):
+                return self.opaque()
+            return Val("(" + ", ".join(self.pack(v) for v in vs) + ")", " × ".join(
+                t if re.match(r"^[A-Za-z_.]+$", t) else "(" + t + ")" for t in (self.ty_of(v) for v in vs)))
         if k == "macro":
             if e[1] in ("println", "print", "eprintln", "eprint", "dbg"):
                 return UNIT
@@ -1165,7 +1299,10 @@ class Exec:
         if len(path) == 1:
             n = path[0]
             if n in st.names:
-                return st.cells[st.names[n]]
+                v = st.cells[st.names[n]]
+                if isinstance(v, Alias):
+                    return self.get_path(st.cells[v.cid], v.path)
+                return v
             if n == "None":
                 return Val("none", "Option ?")
             if n in self.ctx["floatconsts"] and n in self.consts:
@@ -1186,6 +1323,10 @@ class Exec:
                 return Cond("%s %s %s" % (par(a.term), op, par(b.term)), "bool")
             return Cond("(%s) %s (%s)" % (a.prop(), "∧" if op == "&&" else "∨", b.prop()), "prop")
         a, b = self.ev(e[2], st), self.ev(e[3], st)
+        if self.is_opaque(a) or self.is_opaque(b):
+            if op in ("==", "!=", "<", ">", "<=", ">="):
+                return Cond("«state»", "bool")
+            return self.opaque()
         if isinstance(a, FVal) or isinstance(b, FVal):
             if not (isinstance(a, FVal) and isinstance(b, FVal)):
                 raise Untranslatable("mixed float / integer arithmetic")
@@ -1220,6 +1361,8 @@ class Exec:
             return Val("2 ^ %s" % par(tb) if ta == "1" else "%s * 2 ^ %s" % (par(ta), par(tb)), "Nat")
         if op == ">>":
             return Val("%s / 2 ^ %s" % (par(ta), par(tb)), "Nat")
+        if op in ("^", "&", "|"):
+            return Val("%s %s %s" % (par(ta), {"^": "^^^", "&": "&&&", "|": "|||"}[op], par(tb)), "Nat")
         raise Untranslatable("operator %s" % op)
 
     def place(self, e, st):
@@ -1227,6 +1370,9 @@ class Exec:
         if k == "path" and len(e[1]) == 1:
             if e[1][0] not in st.names:
                 raise Untranslatable("assignment to unknown name %s" % e[1][0])
+            v = st.cells[st.names[e[1][0]]]
+            if isinstance(v, Alias):
+                return v.cid, list(v.path)
             return st.names[e[1][0]], []
         if k == "field":
             cid, p = self.place(e[1], st)
@@ -1242,6 +1388,17 @@ class Exec:
         if isinstance(new, Cond):
             new = Val(new.boolean(), "Bool")
         st.cells[cid] = self.set_path(st.cells[cid], path, new)
+        if cid in st.hooks:
+            # a pattern variable bound by `ref mut` / through `as_mut()`: write through to the matched place
+            tcid, tpath = st.hooks[cid]
+            local = st.cells[cid]
+            if any(step[0] == "s" for step in tpath[:-1]):
+                raise Untranslatable("mutable reference through nested options")
+            if tpath and tpath[-1][0] == "s":
+                self.write(st, tcid, tpath[:-1],
+                           Val("some " + par(self.pack(local)), tyapp("Option", self.ty_of(local))))
+            else:
+                self.write(st, tcid, tpath, local)
 
     def do_assign(self, e, st):
         op, lhs, rhs = e[1], e[2], e[3]
@@ -1320,6 +1477,16 @@ class Exec:
 
     def ev_mcall(self, e, st):
         recv, name, args = e[1], e[2], e[3]
+        if recv[0] in ("path", "field", "index", "paren", "ref", "refmut", "deref"):
+            try:
+                v0 = self.ev(recv, st)
+            except Untranslatable:
+                v0 = None
+            if v0 is not None and self.is_opaque(v0):
+                for a in args:
+                    if a[0] != "closure":
+                        self.ev(a, st)
+                return self.opaque()
         if name in self.cfg.get("open", {}):
             cid, p = self.place(recv, st)
             cur = self.get_path(st.cells[cid], p)
@@ -1339,6 +1506,31 @@ class Exec:
             new = self.ev(args[0], st)
             self.write(st, cid, p, Val("some " + par(self.pack(new)), self.ty_of(old)))
             return old
+        if name == "take" and not args:
+            cid, p = self.place(recv, st)
+            old = self.get_path(st.cells[cid], p)
+            if not self.ty_of(old).startswith("Option"):
+                raise Untranslatable(".take on a non-option")
+            self.write(st, cid, p, Val("none", self.ty_of(old)))
+            return old
+        if name in ("insert", "get_or_insert") and len(args) == 1 and recv[0] in ("path", "field", "index"):
+            try:
+                cid, p = self.place(recv, st)
+                old = self.get_path(st.cells[cid], p)
+            except Untranslatable:
+                old = None
+            if old is not None and isinstance(old, Val) and old.ty.startswith("Option") and name == "insert":
+                new = self.ev(args[0], st)
+                self.write(st, cid, p, Val("some " + par(self.pack(new)), old.ty))
+                return new
+        if name == "push" and len(args) == 1:
+            cid, p = self.place(recv, st)
+            cur = self.get_path(st.cells[cid], p)
+            if not self.ty_of(cur).startswith("List"):
+                raise Untranslatable(".push on a non-vector")
+            x = self.ev(args[0], st)
+            self.write(st, cid, p, Val("%s ++ [%s]" % (par(self.pack(cur)), self.pack(x)), self.ty_of(cur)))
+            return UNIT
         if name == "alloc" and len(args) == 1:
             cid, p = self.place(recv, st)
             arena = self.get_path(st.cells[cid], p)
@@ -1354,6 +1546,11 @@ class Exec:
             if key in self.fns:
                 return self.call_user(key, recv, args, st)
             raise Untranslatable("method %s::%s" % key)
+        if self.is_opaque(v):
+            for a in args:
+                if a[0] != "closure":
+                    self.ev(a, st)
+            return self.opaque()
         if isinstance(v, (FVal, Cond)) or v.term is None:
             raise Untranslatable("method .%s() on a float / boolean / unmodelled value" % name)
         t, ty = v.term, v.ty
@@ -1374,6 +1571,40 @@ class Exec:
             if name == "map" and len(args) == 1:
                 f, rty = self.closure_term(args[0], inner, st, "value")
                 return Val("Option.map (%s) %s" % (f, par(t)), tyapp("Option", rty))
+        if ty.startswith("Option"):
+            if name == "unwrap_or" and len(args) == 1:
+                d = self.ev(args[0], st)
+                return self.wrapty("Option.getD %s %s" % (par(t), par(self.pack(d))), inner)
+            if name == "map_or" and len(args) == 2:
+                d = self.ev(args[0], st)
+                f, rty = self.closure_term(args[1], inner, st, "value")
+                return self.wrapty("Option.getD (Option.map (%s) %s) %s" % (f, par(t), par(self.pack(d))), rty)
+            if name == "is_some_and" and len(args) == 1:
+                f, _ = self.closure_term(args[0], inner, st, "bool")
+                return Cond("Option.any (%s) %s" % (f, par(t)), "bool")
+            if name == "and_then" and len(args) == 1:
+                f, rty = self.closure_term(args[0], inner, st, "value")
+                return Val("Option.bind %s (%s)" % (par(t), f), rty)
+            if name == "or" and len(args) == 1:
+                o = self.ev(args[0], st)
+                return Val("Option.or %s %s" % (par(t), par(self.pack(o))), ty)
+        if ty.startswith("List"):
+            if name == "get" and len(args) == 1:
+                i = self.ev(args[0], st)
+                return Val("%s[%s]?" % (par(t), self.pack(i)), tyapp("Option", self.elem_ty(v)))
+            if name == "is_empty" and not args:
+                return Cond(par(t) + ".isEmpty", "bool")
+            if name in ("first", "last") and not args:
+                return Val("%s.%s" % (par(t), "head?" if name == "first" else "getLast?"), tyapp("Option", self.elem_ty(v)))
+        if ty == "Nat" and len(args) == 1 and name in ("min", "max", "saturating_sub", "pow", "wrapping_add",
+                                                       "wrapping_sub", "abs_diff"):
+            if name.startswith("wrapping"):
+                raise Untranslatable("wrapping arithmetic")
+            o = self.pack(self.ev(args[0], st))
+            if name == "abs_diff":
+                return Val("(%s - %s) + (%s - %s)" % (par(t), par(o), par(o), par(t)), "Nat")
+            fmt = {"min": "Nat.min %s %s", "max": "Nat.max %s %s", "saturating_sub": "%s - %s", "pow": "%s ^ %s"}[name]
+            return Val(fmt % (par(t), par(o)), "Nat")
         if ty == "Nat" and name == "next_power_of_two" and not args:
             return Val("_root_.RH.nextPow2 " + par(t), "Nat")
         if ty.startswith("List") and name == "len" and not args:
@@ -1510,63 +1741,192 @@ class Exec:
         self.merge_states(comb, st, sa, sb)
         return self.merge(comb, va, vb)
 
-    def ev_match(self, e, st):
-        sv = self.ev(e[1], st)
-        if isinstance(sv, (SVal, FVal, Cond)) or sv.term is None or not sv.ty.startswith("Option"):
-            raise Untranslatable("match on something that is not an Option")
-        T = sv.term
-        inner = sv.ty[len("Option "):]
+    # ---------------- pattern matching (decision tree over Option / tuple patterns)
+    def scrutinee(self, e, st):
+        """value(s) of a match scrutinee, the place it denotes (if any) and whether it is borrowed mutably"""
+        if e[0] == "tuple":
+            out = []
+            for x in e[1]:
+                out.extend(self.scrutinee(x, st))
+            return out
+        mutable, core = False, e
+        while True:
+            if core[0] in ("paren", "ref"):
+                core = core[1]
+            elif core[0] == "refmut":
+                mutable, core = True, core[1]
+            elif core[0] == "mcall" and core[2] in ("as_mut", "as_deref_mut") and not core[3]:
+                mutable, core = True, core[1]
+            elif core[0] == "mcall" and core[2] in ("as_ref", "as_deref") and not core[3]:
+                core = core[1]
+            else:
+                break
+        pl = None
+        if core[0] in ("path", "field", "index"):
+            try:
+                pl = self.place(core, st)
+            except Untranslatable:
+                pl = None
+        v = self.ev(e, st)
+        if isinstance(v, Cond):
+            v = Val(v.boolean(), "Bool")
+        return [(v, pl, mutable)]
+
+    @staticmethod
+    def refutable(p):
+        return p[0] in ("pctor", "plit")
+
+    def match_tree(self, rows, st, leaf, combine):
+        """rows: [(obligations [(pattern, value, place, mutable)], guard, body)]"""
+        if not rows:
+            raise Untranslatable("match is not exhaustive for the translator")
+        if any(self.is_opaque(v) for obl, _, _ in rows for _, v, _, _ in obl):
+            # the scrutinee is state the model does not have: every arm is possible
+            def idents(p):
+                if p[0] == "pident":
+                    return [p[1]]
+                if p[0] == "pctor":
+                    return [x for q in p[2] for x in idents(q)]
+                if p[0] == "ptuple":
+                    return [x for q in p[1] for x in idents(q)]
+                return []
+            res = None
+            for obl, guard, body in reversed(rows):
+                s1 = st.copy()
+                for p, v, pl, mu in obl:
+                    for n in idents(p):
+                        self.new_cell(s1, n, self.opaque())
+                if guard is not None:
+                    self.cond(guard, s1)
+                r = leaf(body, s1, st.names)
+                res = r if res is None else combine(BranchComb(Cond("«state»", "bool"), None), r, res, st)
+            return res
+        obl, guard, body = rows[0]
+        pick = None
+        for p, v, pl, mu in obl:
+            if p[0] == "ptuple":
+                raise Untranslatable("tuple pattern on a non-tuple scrutinee")
+            if self.refutable(p):
+                pick = (p, v, pl, mu)
+                break
+        if pick is None:
+            s1 = st.copy()
+            for p, v, pl, mu in obl:
+                if p[0] == "pident":
+                    mode = p[2] if len(p) > 2 else ""
+                    cid = self.new_cell(s1, p[1], v)
+                    if pl is not None and (mu or mode == "refmut") and mode != "mut":
+                        s1.hooks[cid] = (pl[0], list(pl[1]))
+            if guard is None:
+                return leaf(body, s1, st.names)
+            c = self.cond(guard, s1)
+            r1 = leaf(body, s1, st.names)
+            r2 = self.match_tree(rows[1:], st.copy(), leaf, combine)
+            return combine(BranchComb(c, None), r1, r2, st)
+        p, v, pl, mu = pick
+        if p[0] == "plit":
+            raise Untranslatable("literal pattern")
+        if self.is_opaque(v) and not v.ty.startswith("Option"):
+            v = Val(v.term, "Option Opaque")
+        if isinstance(v, (SVal, FVal)) or v.term is None or not v.ty.startswith("Option"):
+            raise Untranslatable("constructor pattern on something that is not an Option")
+        T = v.term
+        inner = v.ty[len("Option "):]
         inner = inner[1:-1] if balanced_wrap(inner, "(", ")") else inner
         wname = "w"
-        for pat, _, _ in e[2]:
-            if pat[0] == "pctor" and pat[1] == ["Some"] and len(pat[2]) == 1 and pat[2][0][0] == "pident":
-                wname = pat[2][0][1].lstrip("_") or "w"
-                break
+        if p[1] == ["Some"] and len(p[2]) == 1 and p[2][0][0] == "pident":
+            wname = p[2][0][1].lstrip("_") or "w"
         w = self.fresh(wname)
+        wv = self.wrapty(w, inner)
+        wpl = (pl[0], pl[1] + [("s", T, w, inner)]) if pl is not None else None
 
-        def applicable(pat, ctor):
-            if pat[0] in ("pwild", "pident"):
-                return True
-            if pat[0] == "pctor" and pat[1] == ["Some"] and len(pat[2]) == 1:
-                if pat[2][0][0] not in ("pident", "pwild"):
-                    raise Untranslatable("nested pattern")
-                return ctor == "some"
-            if pat[0] == "pctor" and pat[1] == ["None"] and not pat[2]:
-                return ctor == "none"
-            raise Untranslatable("pattern %r" % (pat,))
+        def same(v2):
+            return isinstance(v2, Val) and v2.term == T
 
-        def chain(arms, base, ctor):
-            if not arms:
-                raise Untranslatable("match is not exhaustive for the translator")
-            pat, guard, body = arms[0]
-            s1 = base.copy()
-            if ctor == "some":
-                s1.know[T] = w
-            if pat[0] == "pident":
-                self.new_cell(s1, pat[1], sv)
-            elif pat[0] == "pctor" and pat[2] and pat[2][0][0] == "pident":
-                self.new_cell(s1, pat[2][0][1], self.wrapty(w, inner))
-            if guard is None:
-                v1 = self.ev(body, s1)
-                s1.names = dict(base.names)
-                return s1, v1
-            c = self.cond(guard, s1)
-            v1 = self.ev(body, s1)
-            s2, v2 = chain(arms[1:], base, ctor)
-            comb = IteComb(c)
+        def specialise(ctor):
+            out = []
+            for obl2, g2, b2 in rows:
+                new, keep = [], True
+                for (p2, v2, pl2, mu2) in obl2:
+                    if not (same(v2) and p2[0] == "pctor"):
+                        new.append((p2, v2, pl2, mu2))
+                        continue
+                    if p2[1] == ["Some"] and len(p2[2]) == 1:
+                        if ctor != "some":
+                            keep = False
+                            break
+                        new.append((p2[2][0], wv, wpl, mu2))
+                    elif p2[1] == ["None"] and not p2[2]:
+                        if ctor != "none":
+                            keep = False
+                            break
+                    else:
+                        raise Untranslatable("pattern %s" % "::".join(p2[1]))
+                if keep:
+                    out.append((new, g2, b2))
+            return out
+        sS = st.copy()
+        sS.know[T] = w
+        rS = self.match_tree(specialise("some"), sS, leaf, combine)
+        rN = self.match_tree(specialise("none"), st.copy(), leaf, combine)
+        return combine(MatchComb(T, w), rS, rN, st)
+
+    def match_rows(self, e, st):
+        scr = self.scrutinee(e[1], st)
+        rows = []
+        for pat, guard, body in e[2]:
+            if e[1][0] == "tuple":
+                if pat[0] == "ptuple" and len(pat[1]) == len(scr):
+                    pats = pat[1]
+                elif pat[0] == "pwild":
+                    pats = [("pwild",)] * len(scr)
+                else:
+                    raise Untranslatable("pattern for a tuple scrutinee")
+            else:
+                pats = [pat]
+            rows.append(([(p, v, pl, mu) for p, (v, pl, mu) in zip(pats, scr)], guard, body))
+        return rows
+
+    def ev_match(self, e, st):
+        rows = self.match_rows(e, st)
+
+        def leaf(body, s, names):
+            v = self.ev(body, s)
+            s.names = dict(names)
+            return s, v
+
+        def combine(comb, r1, r2, base):
             m = base.copy()
-            self.merge_states(comb, m, s1, s2)
-            return m, self.merge(comb, v1, v2)
-
+            self.merge_states(comb, m, r1[0], r2[0])
+            return m, self.merge(comb, r1[1], r2[1])
         self.depth += 1
         try:
-            sS, vS = chain([a for a in e[2] if applicable(a[0], "some")], st, "some")
-            sN, vN = chain([a for a in e[2] if applicable(a[0], "none")], st, "none")
+            sm, vm = self.match_tree(rows, st, leaf, combine)
         finally:
             self.depth -= 1
-        comb = MatchComb(T, w)
-        self.merge_states(comb, st, sS, sN)
-        return self.merge(comb, vS, vN)
+        for cid in list(st.cells):
+            st.cells[cid] = sm.cells[cid]
+        return vm
+
+    def exec_match(self, e, st, ctx, kk):
+        """`match` / `if let` with return / continue inside an arm (continuation passing)"""
+        rows = self.match_rows(e, st)
+
+        def leaf(body, s, names):
+            def k2(s2, v):
+                s2.names = dict(names)
+                return kk(s2, v)
+            if has_div(body):
+                return self.exec_expr(body, s, ctx, k2)
+            return k2(s, self.ev(body, s))
+
+        def combine(comb, r1, r2, base):
+            return comb.mk(r1, r2, True)
+        self.depth += 1
+        try:
+            return self.match_tree(rows, st, leaf, combine)
+        finally:
+            self.depth -= 1
 
     # ---------------- statements (direct style)
     def normalise(self, st):
@@ -1584,6 +1944,10 @@ class Exec:
             pat, ty, init = s[1], s[2], s[3]
             if init is None:
                 raise Untranslatable("let without initialiser")
+            if init[0] == "refmut" and pat[0] == "pident":
+                cid, path = self.place(init[1], st)
+                self.new_cell(st, pat[1], Alias(cid, path))
+                return UNIT
             v = self.ev(init, st)
             if isinstance(v, Cond):
                 v = Val(v.boolean(), "Bool")
@@ -1668,6 +2032,8 @@ class Exec:
             out = []
             for cid in st.cells:
                 v = s.cells[cid]
+                if isinstance(v, Alias):
+                    continue
                 if cid == self.selfcell and isinstance(v, SVal):
                     for rf, lf, ty in self.fields(v.sname):
                         if lf is not None:
@@ -1769,6 +2135,11 @@ class Exec:
             return BranchComb(c, w).mk(a, b, True)
         if k == "loop":
             return self.gen_loop(e[1], st, ctx)
+        if k == "match":
+            return self.exec_match(e, st, ctx, kk)
+        if k == "iflet":
+            return self.exec_match(("match", e[2], [(e[1], None, ("block", e[3])),
+                                                    (("pwild",), None, ("block", e[4] or []))]), st, ctx, kk)
         raise Untranslatable("`%s` containing return / continue / loop" % k)
 
     def default_of(self, ty):
@@ -1811,6 +2182,8 @@ class Exec:
                 return n
             for _, n, cid in vis:
                 v = st.cells[cid]
+                if isinstance(v, Alias):
+                    raise Untranslatable("a &mut reference is alive across a loop")
                 if v is UNMOD or v is UNIT or isinstance(v, FVal):
                     continue
                 if isinstance(v, Cond):
@@ -1917,6 +2290,8 @@ class Exec:
                 return n
             for _, n, cid in vis:
                 v = st.cells[cid]
+                if isinstance(v, Alias):
+                    raise Untranslatable("a &mut reference is alive across a loop")
                 if v is UNMOD or v is UNIT or isinstance(v, FVal):
                     continue
                 if isinstance(v, Cond):
@@ -2047,7 +2422,15 @@ class Exec:
             if not comps:
                 return "()"
             return comps[0] if len(comps) == 1 else "(" + ", ".join(comps) + ")"
-        body = self.exec_seq(fn["body"], st, Ctx(ret), lambda s, v: ret(s, v))
+        self.newstate = []
+        try:
+            body = self.exec_seq(fn["body"], st, Ctx(ret), lambda s, v: ret(s, v))
+        except Untranslatable as ex:
+            if self.newstate and ("Opaque" in str(ex) or "«" in str(ex)):
+                raise DiffersNewState(", ".join(self.newstate))
+            raise
+        if self.newstate:
+            raise DiffersNewState(", ".join(self.newstate))
         if cfg.get("float") and not self.uses_float:
             raise Untranslatable("the growth test no longer uses the float constant")
         inst = "".join(" [DecidableEq %s]" % tv for tv in sorted(self.deceq))
@@ -2168,46 +2551,109 @@ def write_if_changed(path, text):
         open(path, "w").write(text)
 
 
-def translate_file(ctx, targets, status, label):
+def translate_file(ctx, targets, label):
+    """returns the list of blocks [ns, lean name, status key, text, status] of one source file"""
     ns = ctx["ns"]
-    parts = ["namespace %s\n" % ns]
-    if ctx["tyvars"].get("K"):
-        parts.append("variable {K V : Type}\n")
     try:
-        fns, consts = parse_source(os.path.join(REPO, ctx["file"]))
-        ex = Exec(ctx, fns, consts, targets)
+        fns, consts, structs = parse_source(os.path.join(REPO, ctx["file"]))
+        ex = Exec(ctx, fns, consts, targets, structs)
         parse_err = None
     except Exception as e:  # noqa
         ex, parse_err = None, "%s: %s" % (type(e).__name__, e)
+    blocks = []
     for key, cfg in targets.items():
         name = "%s::%s" % (label, key[1]) if key[0] else "%s (free fn)" % key[1]
         try:
             if ex is None:
                 raise Untranslatable(parse_err)
-            text = ex.translate_fn(key, cfg)
-            parts.append("/-- `%s` of %s -/\n%s" % (key[1], ctx["file"], text))
-            status[name] = "translated (-> %s.%s)" % (ns, cfg["lean"])
+            text = "/-- `%s` of %s -/\n%s" % (key[1], ctx["file"], ex.translate_fn(key, cfg))
+            st = "translated (-> %s.%s)" % (ns, cfg["lean"])
+        except DiffersNewState as e:
+            text = ("-- READ, BUT DIFFERS: the function uses state the model has no counterpart for (%s);\n"
+                    "-- alias of the hand-written model so that the build stays green; reported as DIFFERS\n%s"
+                    % (e, FALLBACK[ns][cfg["lean"]]))
+            st = "DIFFERS (new state): %s" % e
         except RecursionError:
-            parts.append("-- TRANSLATOR ROUTE NOT AVAILABLE (recursion limit)\n" + FALLBACK[ns][cfg["lean"]])
-            status[name] = UNTR + "recursion limit"
+            text = "-- TRANSLATOR ROUTE NOT AVAILABLE (recursion limit)\n" + FALLBACK[ns][cfg["lean"]]
+            st = UNTR + "recursion limit"
         except Exception as e:  # noqa: never crash, this function only falls back
             why = str(e) if isinstance(e, Untranslatable) else "%s: %s" % (type(e).__name__, e)
-            why = why.replace("\n", " ")
-            parts.append("-- TRANSLATOR ROUTE NOT AVAILABLE (the source left the translator's grammar: %s):\n"
-                         "-- alias of the hand-written model; tied by the correspondence streams only\n%s"
-                         % (why, FALLBACK[ns][cfg["lean"]]))
-            status[name] = UNTR + why
-    parts.append("end %s\n" % ns)
-    return "\n".join(parts)
+            text, st = fallback_block(ns, cfg["lean"], why), UNTR + why.replace("\n", " ")
+        blocks.append([ns, cfg["lean"], name, text, st])
+    return blocks
+
+
+def fallback_block(ns, lean, why):
+    return ("-- TRANSLATOR ROUTE NOT AVAILABLE (the source left the translator's grammar: %s):\n"
+            "-- alias of the hand-written model; tied by the correspondence streams only\n%s"
+            % (why.replace("\n", " "), FALLBACK[ns][lean]))
+
+
+def assemble(blocks):
+    """text of the generated file and, per block, its (first line, last line) (1-based)"""
+    text, spans = HEADER, []
+    cur_ns = None
+    for ns, lean, name, btext, st in blocks:
+        if ns != cur_ns:
+            if cur_ns is not None:
+                text += "end %s\n\n" % cur_ns
+            text += "namespace %s\n\n" % ns
+            if ns == "Gen.Lru":
+                text += "variable {K V : Type}\n\n"
+            cur_ns = ns
+        first = text.count("\n") + 1
+        text += btext + "\n"
+        spans.append((first, text.count("\n")))
+    if cur_ns is not None:
+        text += "end %s\n" % cur_ns
+    return text, spans
+
+
+def elaborate(path):
+    """error lines of `lake env lean <path>`; None when Lean cannot be run"""
+    import subprocess
+    try:
+        r = subprocess.run(["lake", "env", "lean", path], cwd=os.path.join(ROOT, "lean"), capture_output=True,
+                           text=True, timeout=600)
+    except Exception:  # noqa
+        return None
+    out = []
+    for l in (r.stdout + r.stderr).splitlines():
+        m = re.search(r":(\d+):(\d+): error:?\s*(.*)$", l)
+        if m:
+            out.append((int(m.group(1)), m.group(3)))
+    if r.returncode != 0 and not out:
+        return None
+    return out
 
 
 def main():
-    status = {}
-    text = HEADER
-    text += translate_file(CTX_LRU, TARGETS_LRU, status, "Lru") + "\n"
-    text += translate_file(CTX_RH, TARGETS_RH, status, "BackedRobinhoodTable")
+    blocks = translate_file(CTX_LRU, TARGETS_LRU, "Lru") + translate_file(CTX_RH, TARGETS_RH, "BackedRobinhoodTable")
+    text, spans = assemble(blocks)
+    old = open(OUT).read() if os.path.exists(OUT) else None
+    if old != text and os.environ.get("GEN_TABLES_NO_ELAB") != "1":
+        # elaboration guard: a generated definition that Lean rejects falls back to its alias
+        tmp = os.path.join(os.path.dirname(OUT), "GenTablesCheck%d.lean" % os.getpid())
+        try:
+            for _ in range(len(blocks) + 1):
+                open(tmp, "w").write(text)
+                errs = elaborate(tmp)
+                if not errs:
+                    break
+                line, msg = min(errs)
+                hit = [i for i, (a, b) in enumerate(spans) if a <= line <= b]
+                if not hit or not blocks[hit[0]][4].startswith("translated"):
+                    break
+                i = hit[0]
+                why = "does not elaborate: " + msg[:120]
+                blocks[i][3] = fallback_block(blocks[i][0], blocks[i][1], why)
+                blocks[i][4] = UNTR + why
+                text, spans = assemble(blocks)
+        finally:
+            if os.path.exists(tmp):
+                os.remove(tmp)
     write_if_changed(OUT, text)
-    return status
+    return {b[2]: b[4] for b in blocks}
 
 
 if __name__ == "__main__":
